@@ -21,6 +21,23 @@ impl Cmp for ReverseCmp {
     }
 }
 
+/// shorter keys first, keys of equal length bytewise; separator and successor are the identity on the first argument
+pub struct LenFirstCmp;
+impl Cmp for LenFirstCmp {
+    fn cmp(&self, a: &[u8], b: &[u8]) -> Ordering {
+        a.len().cmp(&b.len()).then_with(|| a.cmp(b))
+    }
+    fn find_shortest_sep(&self, a: &[u8], _b: &[u8]) -> Vec<u8> {
+        a.to_vec()
+    }
+    fn find_short_succ(&self, a: &[u8]) -> Vec<u8> {
+        a.to_vec()
+    }
+    fn id(&self) -> &'static str {
+        "verif.LenFirstCmp"
+    }
+}
+
 fn split<'a>(keys: &'a [u8], offs: &[usize]) -> Vec<&'a [u8]> {
     (0..offs.len())
         .map(|i| {
